@@ -336,6 +336,9 @@ func (c *clipperBase) executeInternal(ct ClipType, fillRule FillRule) {
 		}
 
 		c.currentBotY = y
+		if verifOn {
+			verifSweepSnapshot(c, y)
+		}
 
 		y, ok = c.popScanline()
 		if !ok {
